@@ -126,16 +126,16 @@ structure Plan where
   pre : Stk → PreRes
   crit : Locals → Stk → Except Fault (Stk × Out)
 
-/-- the tests every exported wrapper makes before delegating (read-only, nil argument,
-`IsEmpty` in `Pop` and `Reverse`): true = return at once -/
+/-- the tests every exported wrapper makes before delegating (read-only, nil argument): true = return at once.
+(Until repair F42 `Pop` and `Reverse` also tested `IsEmpty` here, outside the critical section.) -/
 def skipPre (s : Stk) : ListOp → Bool
   | .push _ => s.readOnly
-  | .pop => s.ulen == 0 || s.readOnly
+  | .pop => s.readOnly
   | .insert x _ => x.isNil || s.readOnly
   | .remove _ => s.readOnly
   | .replace x _ => x.isNil || s.readOnly
   | .swap _ _ => s.readOnly
-  | .reverse => s.ulen == 0 || s.readOnly
+  | .reverse => s.readOnly
   | .reset => s.readOnly
 
 /-- lock-first: the critical section is the sequential model -/
